@@ -1,4 +1,5 @@
 import Ebu.Proofs.ConcCancelWitness
+import Ebu.Proofs.ConcAsyncLive
 import Ebu.Spec.Flow
 import Ebu.Spec.Bus
 import Ebu.Proofs.BusFrame
@@ -116,5 +117,24 @@ skipped.  The same history is replayed on the real code by the `seqcancel` scena
 theorem cancelled_waiter_is_skipped :
     Ebu.Conc.entriesOfReg 0 Ebu.Conc.CancelWitness.cwAfter.tr = Ebu.Conc.entriesOfReg 0 Ebu.Conc.CancelWitness.cwState.tr :=
   Ebu.Conc.CancelWitness.cancelled_waiter_is_skipped
+
+/-- … and the asynchronous half: the goroutine of an Async handler enters the handler only while the context of the
+publish it was started for is live – whether it checks right at its start (plain Async) or after it has waited for its
+turn and for the handler's mutex (Async+Sequential) – and what it enters is exactly the delivery it was started for -/
+theorem async_entry_only_if_live (progs : List (List Ebu.Conc.Op)) (x : Ebu.Conc.SysT) (h : Ebu.Conc.ReachableT progs x)
+    (i : Nat) (th : Ebu.Conc.Thread) (o : Ebu.Conc.Out) (hi : x.s.ths[i]? = some th)
+    (hstep : Ebu.Conc.step x.s.sh th = some o) (rid ty v : Nat) (he : Ebu.Conc.Obs.enter rid ty v true ∈ o.obs) :
+    ∃ j, th.job = some j ∧ x.s.sh.live j.ctx = true ∧ rid = j.reg.rid ∧ ty = j.ty ∧ v = j.v :=
+  Ebu.Conc.async_entry_only_if_live h i th o hi hstep rid ty v he
+
+/-- a goroutine whose publish context is cancelled before it has entered its handler never enters it, however the run
+goes on -/
+theorem cancelled_job_never_enters_later (progs : List (List Ebu.Conc.Op)) (x x2 : Ebu.Conc.SysT)
+    (h : Ebu.Conc.ReachableT progs x) (hs : Ebu.Conc.StepsT x x2) (i : Nat) (th : Ebu.Conc.Thread) (j : Ebu.Conc.Job)
+    (hi : x.s.ths[i]? = some th) (hj : th.job = some j) (hdead : x.s.sh.live j.ctx = false)
+    (hnot : Ebu.Conc.asyncEntersOf i x.tr = []) :
+    Ebu.Conc.asyncEntersOf i x2.tr = [] ∧ x2.s.sh.live j.ctx = false ∧
+    ∃ th2, x2.s.ths[i]? = some th2 ∧ th2.job = some j :=
+  Ebu.Conc.cancelled_job_never_enters_later h hs i th j hi hj hdead hnot
 
 end Ebu.Props.C08
